@@ -1,57 +1,59 @@
 (* Properties/C14.v — Aggregates are invariant under retraction histories.  Statements only; proofs are in
    Proofs/AggregatesProofs.v.  Model: Model/Aggregates.v (every prototype of aggregates.Aggregates as
    init / add(retraction, value) / trig; [run W h] is the state after the Adds of the history h).
-   In every statement  h  is ANY history of any length,  valid_hist h  says no prefix retracts a value
-   whose Compare-class is absent, and  l  is ANY non-empty list representing the net multiset of h
-   (for every value v: the number of members of l that Compare equal to v = additions - retractions of
-   that class in h).  "Computed from scratch" means: a function of l alone. *)
+   In every statement  h  is ANY history: any interleaving of additions and retractions of any length;
+   a retraction may come before the addition it cancels, so intermediate multiplicities may be negative.
+   l  is ANY non-empty list representing the net multiset of h (for every value v: the number of members
+   of l that Compare equal to v = additions - retractions of that class in h; this forces every class to
+   have a non-negative net, i.e. the net "multiset" to be a multiset).  "Computed from scratch" means: a
+   function of l alone. *)
 From Coq Require Import Sorted.
 From Octo Require Import Aggregates AggregatesProofs.
 
 (* count = |M|  (as an int64) *)
-Theorem C14_count : forall h l, valid_hist h -> represents l h -> l <> [] ->
+Theorem C14_count : forall h l, represents l h -> l <> [] ->
   trig Count (run Count h) = Ok (VInt (wrap64 (zlen l))).
 Proof. exact count_correct. Qed.
 Print Assumptions C14_count.
 
 (* sum(Int) = the int64-wrapped sum of M, whatever wrapped along the way *)
-Theorem C14_sum_int : forall h l, valid_hist h -> represents l h -> l <> [] ->
+Theorem C14_sum_int : forall h l, represents l h -> l <> [] ->
   trig SumInt (run SumInt h) = Ok (VInt (wrap64 (lsum int_of l))).
 Proof. exact (sum64_correct int_of VInt int_of_inv). Qed.
 Print Assumptions C14_sum_int.
 
-Theorem C14_sum_duration : forall h l, valid_hist h -> represents l h -> l <> [] ->
+Theorem C14_sum_duration : forall h l, represents l h -> l <> [] ->
   trig SumDur (run SumDur h) = Ok (VDur (wrap64 (lsum dur_of l))).
 Proof. exact (sum64_correct dur_of VDur dur_of_inv). Qed.
 Print Assumptions C14_sum_duration.
 
 (* avg(Int) = the wrapped sum divided by |M|, truncating toward zero (never a panic: |M| > 0) *)
-Theorem C14_avg_int : forall h l, valid_hist h -> represents l h -> l <> [] -> zlen l < two63 ->
+Theorem C14_avg_int : forall h l, represents l h -> l <> [] -> zlen l < two63 ->
   trig AvgInt (run AvgInt h) = Ok (VInt (Z.quot (wrap64 (lsum int_of l)) (zlen l))).
 Proof. exact (avg64_correct int_of VInt int_of_inv). Qed.
 Print Assumptions C14_avg_int.
 
-Theorem C14_avg_duration : forall h l, valid_hist h -> represents l h -> l <> [] -> zlen l < two63 ->
+Theorem C14_avg_duration : forall h l, represents l h -> l <> [] -> zlen l < two63 ->
   trig AvgDur (run AvgDur h) = Ok (VDur (Z.quot (wrap64 (lsum dur_of l)) (zlen l))).
 Proof. exact (avg64_correct dur_of VDur dur_of_inv). Qed.
 Print Assumptions C14_avg_duration.
 
 (* min = a least element of M under Value.Compare (values are identified by Compare = 0; all kinds of
    values, NaN and signed zeros included); never the empty-tree panic *)
-Theorem C14_min : forall h l, valid_hist h -> represents l h -> l <> [] ->
+Theorem C14_min : forall h l, represents l h -> l <> [] ->
   exists m, trig Min (run Min h) = Ok m /\
             (exists x, In x l /\ vcompare m x = 0) /\ (forall x, In x l -> vcompare m x <= 0).
 Proof. exact min_correct_prop. Qed.
 Print Assumptions C14_min.
 
-Theorem C14_max : forall h l, valid_hist h -> represents l h -> l <> [] ->
+Theorem C14_max : forall h l, represents l h -> l <> [] ->
   exists m, trig Max (run Max h) = Ok m /\
             (exists x, In x l /\ vcompare m x = 0) /\ (forall x, In x l -> vcompare x m <= 0).
 Proof. exact max_correct_prop. Qed.
 Print Assumptions C14_max.
 
 (* array_agg = the ascending expansion of M: sorted under Compare, every class with its multiplicity *)
-Theorem C14_array : forall h l, valid_hist h -> represents l h -> l <> [] ->
+Theorem C14_array : forall h l, represents l h -> l <> [] ->
   exists e, trig Array (run Array h) = Ok (VList e) /\
             StronglySorted (fun a b => vcompare a b <= 0) e /\ (forall v, ccount e v = ccount l v).
 Proof. exact array_correct_prop. Qed.
@@ -59,7 +61,8 @@ Print Assumptions C14_array.
 
 (* DISTINCT, generically: if W is correct w.r.t. spec, Distinct W is correct w.r.t. spec applied to the
    support of M (any list with exactly one member per class present in M).  Uses C09's
-   "Compare-equal values have equal hash feeds" for the hashmap abstraction. *)
+   "Compare-equal values have equal hash feeds" for the hashmap abstraction.  Holds for every interleaving:
+   the map keeps signed counts and forwards exactly the 0 -> 1 additions and the 1 -> 0 retractions. *)
 Theorem C14_distinct : forall W spec, agg_correct W spec ->
   agg_correct (Distinct W) (fun l o => forall l', support_of l' l -> spec l' o).
 Proof. exact distinct_correct. Qed.
@@ -71,19 +74,20 @@ Proof. exact vnub_support. Qed.
 Print Assumptions C14_support_exists.
 
 (* Every prototype of the table that contains no float sum (count, sum/avg over Int and Duration, min,
-   max, array_agg and all their DISTINCT wrappers, nested to any depth): after every Add of every valid
-   history, whenever the net multiset is non-empty, the model's Trigger value is accepted by the very
+   max, array_agg and all their DISTINCT wrappers, nested to any depth): after every Add of every
+   history, whenever the net multiset has no negative class and is non-empty, the model's Trigger value is accepted by the very
    oracle the differential check applies to the implementation's observations. *)
-Theorem C14_table : forall k h, float_free k = true -> valid_hist h -> Z.of_nat (length h) < two63 ->
+Theorem C14_table : forall k h, float_free k = true -> Z.of_nat (length h) < two63 ->
   c14_spec (k, h, run_obs (agg_of k) h) = true.
 Proof. exact model_passes_c14_spec. Qed.
 Print Assumptions C14_table.
 
-(* the oracle's guard: the executable net multiset exists exactly for valid histories and represents them *)
-Theorem C14_netl_sound : forall h l, netl h = Some l -> valid_hist h /\ represents l h.
+(* the oracle's guard: [netl] keeps the members present and the retractions still owed; when nothing is owed
+   the list represents the net multiset, and nothing is owed exactly when no class is negative *)
+Theorem C14_netl_sound : forall h l, netl h = (l, []) -> represents l h.
 Proof. exact netl_sound. Qed.
 Print Assumptions C14_netl_sound.
-Theorem C14_netl_complete : forall h, valid_hist h -> exists l, netl h = Some l.
+Theorem C14_netl_complete : forall h, (forall v, 0 <= net h v) -> snd (netl h) = [].
 Proof. exact netl_complete. Qed.
 Print Assumptions C14_netl_complete.
 
@@ -98,7 +102,7 @@ Proof. exact is_least_spec. Qed.
 Print Assumptions C14_oracle_least.
 
 (* Float sums — PARTIAL.  Full statement wanted:
-     forall h l, valid_hist h -> represents l h -> l <> [] -> all floats finite ->
+     forall h l, represents l h -> l <> [] -> all floats finite ->
        |float(trig SumFloat (run SumFloat h)) - exact_sum l| <= rounding_bound (length h) (sum of |x| over h)
    Proved: (1) SumFloat, SumInt and SumExact are one algorithm (SumG) over three carriers; (2) over exact
    integers (any class-invariant valuation f, e.g. the exact value of a finite float in units of 2^-1074)
@@ -107,7 +111,7 @@ Print Assumptions C14_oracle_least.
    engine (c14_spec compares with the exact rational sum within (n+3) 2^-52 sum|x|), and the model's
    SumFloat/AverageFloat are tied to the implementation bit for bit. *)
 Theorem C14_sum_exact_partial : forall f, class_inv f ->
-  forall h l, valid_hist h -> represents l h -> l <> [] ->
+  forall h l, represents l h -> l <> [] ->
   trig (SumExact f) (run (SumExact f) h) = Ok (VInt (lsum f l)).
 Proof. exact sum_exact_correct. Qed.
 Print Assumptions C14_sum_exact_partial.
@@ -120,7 +124,7 @@ Print Assumptions C14_sum_one_algorithm.
 (* Known finding (not a small repair): a float sum does not survive the retraction of a non-finite value:
    +Inf, +1.0, -(+Inf) leaves NaN in sum and avg although the net multiset is {1.0}; the oracle rejects it. *)
 Theorem C14_float_sum_nonfinite_refuted : exists h l,
-  valid_hist h /\ represents l h /\ l = [VFloat fb_one] /\
+  represents l h /\ l = [VFloat fb_one] /\
   trig SumFloat (run SumFloat h) = Ok (VFloat f_canon_nan) /\
   trig AvgFloat (run AvgFloat h) = Ok (VFloat f_canon_nan) /\
   c14_spec (KSumFloat, h, run_obs SumFloat h) = false.
@@ -129,19 +133,33 @@ Print Assumptions C14_float_sum_nonfinite_refuted.
 
 (* ... nor an intermediate overflow: +Max, +Max, -Max leaves +Inf although the net multiset is {Max} *)
 Theorem C14_float_sum_overflow_refuted : exists h l,
-  valid_hist h /\ represents l h /\ l = [VFloat fb_max] /\
+  represents l h /\ l = [VFloat fb_max] /\
   forallb (fun e => fl_finite (float_of (snd e))) h = true /\
   trig SumFloat (run SumFloat h) = Ok (VFloat fb_pinf) /\
   c14_spec (KSumFloat, h, run_obs SumFloat h) = false.
 Proof. exact float_sum_overflow_refuted. Qed.
 Print Assumptions C14_float_sum_overflow_refuted.
 
-(* Non-vacuity: a history with a duplicate, a retraction through another member of the class (-0.0 for
-   +0.0), an emptied class and a NaN meets the hypotheses, with a two-element net multiset. *)
+(* The code before `fix: Distinct forwards a retraction ... only when a retraction empties the value`:
+   an addition cancelling an earlier out-of-order retraction (count -1 -> 0) forwarded a retraction the
+   wrapped aggregate had never seen: count_distinct over -7 +7 +9 reported 0 for the net multiset {9}. *)
+Theorem C14_distinct_pinned_refuted : exists h l,
+  represents l h /\ l = [VInt 9] /\
+  trig (Distinct_pinned Count) (run (Distinct_pinned Count) h) = Ok (VInt 0) /\
+  trig (Distinct Count) (run (Distinct Count) h) = Ok (VInt 1) /\
+  c14_spec (KDistinct KCount, h, run_obs (Distinct_pinned Count) h) = false.
+Proof. exact distinct_pinned_refuted. Qed.
+Print Assumptions C14_distinct_pinned_refuted.
+
+(* Non-vacuity: a history that starts with a retraction of an absent value (-4 +4), has a duplicate, a
+   retraction through another member of the class (-0.0 for +0.0), an emptied class and a NaN meets the
+   hypotheses, with a two-element net multiset; at the first two steps a class is negative / M is empty. *)
 Example C14_hypotheses_satisfiable :
-  let h := [(false, VFloat 0); (false, VFloat 0); (true, VFloat 9223372036854775808); (false, VInt 7);
-            (true, VInt 7); (false, VFloat f_canon_nan)] in
-  netl h = Some [VFloat 0; VFloat f_canon_nan] /\
-  run_obs Min h = [Ok (VFloat 0); Ok (VFloat 0); Ok (VFloat 0); Ok (VInt 7); Ok (VFloat 0); Ok (VFloat f_canon_nan)] /\
-  run_obs (Distinct Count) h = [Ok (VInt 1); Ok (VInt 1); Ok (VInt 1); Ok (VInt 2); Ok (VInt 1); Ok (VInt 2)].
+  let h := [(true, VInt 4); (false, VInt 4); (false, VFloat 0); (false, VFloat 0); (true, VFloat 9223372036854775808);
+            (false, VInt 7); (true, VInt 7); (false, VFloat f_canon_nan)] in
+  netl h = ([VFloat 0; VFloat f_canon_nan], []) /\
+  netl (firstn 1 h) = ([], [VInt 4]) /\
+  skipn 2 (run_obs Array h) = [Ok (VList [VFloat 0]); Ok (VList [VFloat 0; VFloat 0]); Ok (VList [VFloat 0]);
+                               Ok (VList [VInt 7; VFloat 0]); Ok (VList [VFloat 0]); Ok (VList [VFloat f_canon_nan; VFloat 0])] /\
+  skipn 2 (run_obs (Distinct Count) h) = [Ok (VInt 1); Ok (VInt 1); Ok (VInt 1); Ok (VInt 2); Ok (VInt 1); Ok (VInt 2)].
 Proof. vm_compute. repeat split. Qed.
